@@ -23,6 +23,8 @@ class OracleError(Exception):
 
 
 # ------------------------------------------------------------------ independent tree evaluation
+LOG_OPT = [False]      # set from the payload: run the API in log-space optimisation mode
+
 def ev_tree(labels, x, p):
     pos = [0]
 
@@ -200,7 +202,7 @@ def check_tree(labels, L, x, y, s, pipe, lib, tree_index, seed, limit):
     fs.convert_params, gen.aifeyn_complexity = spy_cp, spy_ai
     try:
         with fitlib.alarm_limit(limit), quiet():
-            res = fs.single_function(list(labels), BASIS, L, return_params=True)
+            res = fs.single_function(list(labels), BASIS, L, return_params=True, log_opt=LOG_OPT[0])
     except fitlib.alarm_limit.Expired as e:
         return [("c20:no-return:" + lab_s, "single_function(%s) did not return: %s" % (labels, e))], info
     except Exception as e:
@@ -274,7 +276,7 @@ def check_tree(labels, L, x, y, s, pipe, lib, tree_index, seed, limit):
     np.random.seed((seed * 1000003 + zlib.crc32(("s" + lab_s).encode())) % (2 ** 32))
     try:
         with fitlib.alarm_limit(limit), quiet():
-            r2 = fs.fit_from_string(fstring, BASIS, L, return_params=True)
+            r2 = fs.fit_from_string(fstring, BASIS, L, return_params=True, log_opt=LOG_OPT[0])
     except fitlib.alarm_limit.Expired as e:
         bad.append(("c20:no-return:string:" + lab_s, "fit_from_string(%r) did not return: %s" % (fstring, e)))
         return bad, info
@@ -310,6 +312,7 @@ def main(p):
     limit = p.get("limit_s", 120)
     work = os.environ["ESRV_WORK"]
     comp = p.get("comp")
+    LOG_OPT[0] = bool(p.get("log_opt", False))
     lib = None
     out = {"cases": 0, "distinct": 0, "failures": [], "n_failures": 0, "skipped_near_threshold": 0, "n_affine_trees": 0, "n_library_trees": 0, "pipeline_runs": 0}
     trees = []
